@@ -168,7 +168,7 @@ PROPS = {
              "names); 24 signed queries per scenario drawn from: valid (time offset within fudge-10 s), allowed truncation, "
              "corrupted MAC, unknown key, unknown algorithm, key used with the other algorithm, MAC length outside "
              "[max(10,half),full], stale and future times (>= 10 s outside the window), corrupted MAC + stale; key names "
-             "spelled in random case; UDP and TCP; EDNS on/off. distinct = (variant, algorithm, RCODE, TC) classes; every 64th case runs the TSIG size sweep (QNAME length 2..255 x key name near the limit x valid / stale / corrupted / unknown key / short MAC x no EDNS / 512 / server size): every request must get a response; one request in twelve carries enough ignorable additional records to make ARCOUNT 255 / 256 / 257 / 512",
+             "spelled in random case; UDP and TCP; EDNS on/off. distinct = (variant, algorithm, RCODE, TC) classes; every 64th case runs the TSIG size sweep (QNAME length 2..255 x key name near the limit x valid / stale / corrupted / unknown key / short MAC x no EDNS / 512 / server size): every request must get a response; one request in twelve carries enough ignorable additional records to make ARCOUNT 255 / 256 / 257 / 512; a tenth of the scenarios run a server without any key (every signed request must get BADKEY)",
         assumptions=COMMON_ASSUMPTIONS + [
             "the server reads the real clock: time offsets are drawn >= 10 s inside or outside the fudge window, and server "
             "times are accepted within 5 s of the harness's clock",
@@ -291,7 +291,7 @@ PROPS = {
         rule="prefix lengths v4 in {0,1,8,16,24,31,32}, v6 in {0,1,48,56,63,64}; table sizes {1,7,1024,65537}; slip 0/1; second "
              "request derived from the first: same or one bit flipped at/inside/outside the prefix boundary, IPv4 vs mapped "
              "IPv6, case variants, two names under one wildcard / under different wildcards, NODATA vs answer, NXDOMAIN vs "
-             "REFUSED vs FORMERR, TCP, NOTIFY/UPDATE/STATUS opcodes. distinct = (relation, limited, category, prefixes, wildcard); an eighth of the requests carry an OPT with EDNS version 1 (BADVERS, whose low four RCODE bits equal NOERROR: it belongs to the per-prefix stream of all other RCODEs); sources include IPv6 addresses in ::/96 (the IPv4-compatible spelling of the IPv4 addresses in play), which are IPv6 sources, not IPv4-mapped ones; a quarter of the servers keep the default prefix lengths (/24, /56) without the setters being called; the zone holds mail. / ma.il. / m.ail.rrl.test. (same octets, different label boundaries: different names and streams)",
+             "REFUSED vs FORMERR, TCP, NOTIFY/UPDATE/STATUS opcodes. distinct = (relation, limited, category, prefixes, wildcard); an eighth of the requests carry an OPT with EDNS version 1 (BADVERS, whose low four RCODE bits equal NOERROR: it belongs to the per-prefix stream of all other RCODEs); sources include IPv6 addresses in ::/96 (the IPv4-compatible spelling of the IPv4 addresses in play), which are IPv6 sources, not IPv4-mapped ones; a quarter of the servers keep the default prefix lengths (/24, /56) without the setters being called; the zone holds mail. / ma.il. / m.ail.rrl.test. (same octets, different label boundaries: different names and streams); the zone also has a wildcard that owns a CNAME (*.cn.rrl.test.)",
         assumptions=COMMON_ASSUMPTIONS + ["pairs taking >= 0.5 s of real time are discarded", "a 2^-32 QNAME-hash collision would be a false alarm"],
         quick=plans(dict(build="dbg", nshards=16)),
         thorough=plans(dict(build="dbg", nshards=16), dict(build="rel", nshards=16)),
